@@ -532,6 +532,24 @@ def cache_body_rules(R, prefix, wrapper_fi, cache_expr_pred, what):
     sk = set(q.src(cache_target(n.ast).slice) for n in stores)
     R.check(lk == sk and len(lk) == 1, prefix + ".LOOKUP-FIRST", wrapper_fi.qualname + ":same-key", site,
             "lookup and store use the same key expression", "lookup uses %s but store uses %s" % (sorted(lk), sorted(sk)))
+    # the key is the normalised argument tuple itself, not a lossy digest of it (hash/id/str/len... collapse distinct
+    # argument tuples into one slot: hash(-1) == hash(-2), str(1) == str('1') after formatting, ...)
+    LOSSY = ("hash", "id", "str", "repr", "len", "type", "bool", "frozenset", "set", "sorted", "sum", "min", "max", "abs", "int", "float", "any", "all")
+    for kname in sorted(lk & sk):
+        if not kname.isidentifier():
+            continue
+        defs = [n for n in cfg.nodes if n.kind == "stmt" and isinstance(n.ast, ast.Assign) and any(isinstance(t, ast.Name) and t.id == kname for t in n.ast.targets)]
+        bad = None
+        for d in defs:
+            for x in ast.walk(d.ast.value):
+                if isinstance(x, ast.Call) and isinstance(x.func, ast.Name) and x.func.id in LOSSY and x.args:
+                    bad = (d, x)
+                if isinstance(x, ast.Call) and isinstance(x.func, ast.Attribute) and x.func.attr in ("__hash__", "__str__", "__repr__", "__len__"):
+                    bad = (d, x)
+        R.check(bad is None, prefix + ".KEY-INJECTIVE", wrapper_fi.qualname + ":" + kname, R.site(wrapper_fi, bad[0].ast if bad else None) if bad else site,
+                "the cache key is the normalised argument tuple itself (no lossy digest between the key function and the table)",
+                "%s keys its table on `%s`: distinct argument tuples that collide under %s share one slot, so a call returns the value cached for "
+                "different arguments" % (what, q.src(bad[0].ast.value)[:60] if bad else "", q.src(bad[1].func) if bad else ""))
     for st in stores:
         # STORE-AFTER-SUCCESS: every path to the store passes the yield's normal successor; the store is not
         # reachable from the yield's exceptional successors without passing the yield again
